@@ -405,7 +405,7 @@ func VReplayDsm(task engine.SeqTask) (res engine.SeqResult) {
 	if st.cont != nil {
 		hs = append(hs, fmt.Sprintf("cont:%s:%d", st.contDS, st.contSeen))
 	}
-	res.Key = h.Canon(append(append([]string{}, p.IDs...), "e4"), vLiveNames(h), strings.Join(liveDesc, ",")+"|dead:"+strings.Join(deadKeys, ",")+"|"+strings.Join(hs, ","))
+	res.Key = h.Canon(append(append([]string{}, p.IDs...), "e4"), vLiveNames(h), strings.Join(liveDesc, ",")+"|dead:"+strings.Join(deadKeys, ",")+"|"+strings.Join(hs, ",")+"|"+h.CatalogueDigest())
 	// a restart is meant to change nothing: mark the state right behind it, or the search would never go on from there
 	if n := len(task.Hist); n > 0 {
 		var lo struct {
@@ -703,7 +703,7 @@ func VReplayCat(task engine.SeqTask) (res engine.SeqResult) {
 		dead += len(d.Name) * 0
 		dead++
 	}
-	res.Key = h.Canon(append(append([]string{}, vIDs...), "e4"), vLiveNames(h), strings.Join(parts, ";")+fmt.Sprintf("|dead%d", dead))
+	res.Key = h.Canon(append(append([]string{}, vIDs...), "e4"), vLiveNames(h), strings.Join(parts, ";")+fmt.Sprintf("|dead%d", dead)+"|"+h.CatalogueDigest())
 	// a restart is meant to change nothing: mark the state right behind it, or the search would never go on from there
 	if n := len(task.Hist); n > 0 {
 		var lo struct {
